@@ -655,7 +655,9 @@ Proof.
   intros tau u loc scale k Ht Hs. dist_unfold.
   assert (Hq : 0 < Rsqrt tau) by (apply sqrt_lt_R0; assumption).
   set (c := 1 / (scale * Rsqrt tau)).
-  rewrite (Rmult_comm c), <- !Rmult_assoc, <- !exp_plus. rewrite (Rmult_comm _ c). symmetry. rewrite (Rmult_comm _ c).
+  match goal with |- Rexp ?A * (c * Rexp ?B) = Rexp ?C * (c * Rexp ?D) =>
+    replace (Rexp A * (c * Rexp B)) with (c * Rexp (A + B)) by (rewrite exp_plus; ring);
+    replace (Rexp C * (c * Rexp D)) with (c * Rexp (C + D)) by (rewrite exp_plus; ring) end.
   f_equal. f_equal. field. lra.
 Qed.
 
@@ -688,7 +690,7 @@ Proof.
     rewrite !Rmult_1_l, exp_ln in T by assumption.
     unfold lognormal_mean, sq. rn_unfold.
     replace (loc + scale * scale / (1 + 1)) with (loc + scale * scale / 2) by field.
-    unfold Rdiv at 1. rewrite <- Rmult_assoc, T. field. lra.
+    unfold Rdiv in *. rewrite <- !Rmult_assoc. try rewrite <- !Rmult_assoc in T. rewrite T. reflexivity.
   - pose proof (is_derive_scal _ x (Rexp (2 * loc + 2 * (scale * scale))) _
                   (lognormal_cdf_derivative_gen erf (loc + 2 * (scale * scale)) scale x He Hs Hx)) as H.
     match type of H with is_derive _ _ ?d => replace (x ^ 2 * (normal_pdf RN (2 * PI) (Rln x) loc scale / x)) with d; [exact H|] end.
@@ -696,7 +698,7 @@ Proof.
     replace (2 * loc + 2 * 2 * (scale * scale) / 2) with (2 * loc + 2 * (scale * scale)) in T by field.
     replace (Rexp (2 * Rln x)) with (x ^ 2) in T.
     2:{ replace (2 * Rln x) with (Rln x + Rln x) by ring. rewrite exp_plus, exp_ln by assumption. ring. }
-    unfold Rdiv at 1. rewrite <- Rmult_assoc, T. field. lra.
+    unfold Rdiv in *. rewrite <- !Rmult_assoc. try rewrite <- !Rmult_assoc in T. rewrite T. reflexivity.
 Qed.
 
 (* the stated variance is (second raw moment) - mean^2, with the second raw moment exp(2 mu + 2 sigma^2) *)
@@ -722,7 +724,7 @@ Proof.
   split.
   - apply (is_lim_comp (fun u => normal_cdf RN erf u loc' scale) Rln p_infty (/ 2 * (1 + Lp)) p_infty L1 is_lim_ln_p).
     exists 0. intros y _. discriminate.
-  - eapply filterlim_comp; [apply is_lim_ln_0 | exact L2].
+  - exact (filterlim_comp _ _ _ Rln (fun u => normal_cdf RN erf u loc' scale) _ _ _ is_lim_ln_0 L2).
 Qed.
 
 (* total mass one and the stated mean / second moment, as limits of the antiderivatives, when erf(+-inf) = +-1 *)
@@ -747,9 +749,11 @@ Proof.
     replace (/ 2 * (1 + 1)) with 1 in L1 by field. replace (/ 2 * (1 + -1)) with 0 in L2 by field.
     split.
     - pose proof (is_lim_scal_l _ k p_infty 1 L1) as H. simpl in H. rewrite Rmult_1_r in H. exact H.
-    - pose proof (filterlim_scal_r k _ 0 L2) as H1.
-      replace 0 with (scal k 0) at 2 by (unfold scal; simpl; unfold mult; simpl; ring).
-      eapply filterlim_ext; [|exact H1]. intros x. reflexivity. }
+    - pose proof (filterlim_comp _ _ _ (fun x => normal_cdf RN erf (Rln x) loc' scale) (fun z : R => scal k z)
+                    _ _ _ L2 (filterlim_scal_r k 0)) as H1.
+      match type of H1 with filterlim _ _ (locally ?z) => replace z with (0 : R) in H1 end.
+      + exact H1.
+      + unfold scal; simpl; unfold mult; simpl; ring. }
   split; [|split].
   - destruct (G loc 1) as [A B]. split.
     + eapply is_lim_ext; [|exact A]. intros y. unfold lognormal_cdf. rn_simpl. ring.
